@@ -102,21 +102,39 @@ def main(tier):
             c11.check_history(h, [e1, e2], lambda sig, msg, labels: rep.add_violation(
                 dict(signature=f"C12:tracker-loop:{sig}", msg=msg)) if sig in (
                     "tracker-loop-died", "stopped-consuming") else None)
+    # (S) the tracker client under every thread interleaving with few preemptions
+    from . import c12s
+    if tier == "quick":
+        sr = c12s.explore_all(2, {"cold-2": 4, "dead-2": 4, "dead-getfd": 4, "live-1-killer-two-ops": 4})
+    else:
+        sr = c12s.explore_all(4, {"cold-2": 6, "dead-2": 6, "dead-getfd": 6, "live-1-killer-two-ops": 6})
+    for v in sr["violations"]:
+        rep.add_violation(v)
+    rep.internal = list(getattr(rep, "internal", [])) + sr["internal"]
     from ..real import treereal
     r = treereal.run_c12(tier)
     for sig, msg, case in r["violations"]:
         rep.add_violation(dict(signature=sig, msg=msg, case=case))
     rep.coverage = dict(
-        evaluations=nq + nb + r["cases"], distinct_nontrivial=nq + nb + r["cases"],
+        evaluations=nq + nb + r["cases"] + sr["executions"],
+        distinct_nontrivial=nq + nb + r["cases"] + sr["executions"],
+        client_schedules=dict(executions=sr["executions"], per_program=sr["per_program"],
+                              preemption_bounds=sr["bounds"], states=len(sr["states"]),
+                              transitions=len(sr["transitions"]), outcome_classes=len(sr["outcomes"])),
+        states=len(sr["states"]), transitions=len(sr["transitions"]),
         samples=r["samples"][:4] or [{}], real_cases=r["cases"], ensure_running_configs=nq,
         tracker_loop_histories=nb, exhaustive=False,
         rule="(R) tree depth x start method x 2-3 tracker deaths, 2 end-of-life orderings, on "
              "real processes; (Q) 6 ensure_running configurations over a fake os; all 2-request "
-             "histories over the C11 alphabet for loop survival; every case distinct")
+             "histories over the C11 alphabet for loop survival; (S) the real ResourceTracker "
+             "client class in 2-3 threads (+ a thread that kills the tracker) over a model of "
+             "pipes and tracker processes: every schedule within the stated preemption bound per "
+             "program; every case distinct")
     rep.assumptions = ["signals are delivered to an idle tracker and at three named points of its "
                        "start-up (paused there through the LOKY_VERIF hooks); finer delivery "
                        "instants are not enumerated"]
     code = rep.finish()
-    print(f"[C12] tier={tier} q={nq} loop_histories={nb} real_cases={r['cases']} "
+    print(f"[C12] tier={tier} q={nq} loop_histories={nb} client_schedules={sr['executions']} "
+          f"real_cases={r['cases']} "
           f"violations={len(rep.violations)}")
     return code
